@@ -27,8 +27,8 @@ InitPaths == IF Rich
              THEN {<<>>, <<47>>, <<97>>, <<47, 97>>, <<97, 47>>, <<46, 47, 98, 58, 99>>, <<47, 46, 47, 47, 97>>,
                    <<46, 46>>, <<233, 47, 252>>, <<47, 97, 47, 98>>}
              ELSE {<<>>, <<47>>, <<97>>, <<47, 97, 47>>, <<46, 47, 98, 58, 99>>, <<47, 46, 47, 47, 97>>}
-SegsV == IF Rich THEN {<<>>, <<97>>, DOT, DOTDOT, <<98, 58, 99>>, <<49, 58, 99>>, <<233>>, <<98, 46, 46>>, <<46, 46, 46>>}
-         ELSE {<<>>, <<97>>, DOTDOT, <<49, 58, 99>>, <<98, 46, 46>>}
+SegsV == IF Rich THEN {<<>>, <<97>>, DOT, DOTDOT, <<98, 58, 99>>, <<49, 58, 99>>, <<233>>, <<98, 46, 46>>, <<46, 46, 46>>, <<233, 58, 98>>, <<37, 50, 69, 37, 50, 69>>, <<46, 37, 50, 101>>}
+         ELSE {<<>>, <<97>>, DOTDOT, <<49, 58, 99>>, <<98, 46, 46>>, <<233, 58, 98>>, <<37, 50, 69, 37, 50, 69>>}
 PathOps == {<<"push", s>> : s \in SegsV} \cup {<<"sym_push", s>> : s \in SegsV}
            \cup {<<"pop">>, <<"clear">>, <<"normalize">>}
            \cup {<<"sym_append", <<DOTDOT, <<97>>>>>>, <<"sym_append", <<<<97>>, DOT>>>>}
